@@ -60,7 +60,9 @@ def pairing(chk, F):
     import c02 as _c02
     LIST = _c02.param_of_type(fn, "&[") or 3      # the names parameter is the slice, wherever it stands
     names_ok = any(x == "core::slice::<impl [T]>::iter(arg%d)" % LIST for x in a)
-    parts_ok = any(x.endswith("into_iter(alloc::vec::Vec::<T>::new())") or "IntoIterator>::into_iter(" in x and "Vec" in x and "skip" not in x for x in a)
+    # (`.zip(out.into_iter())`, or `.zip(out)`: the vector of parts itself)
+    parts_ok = any(x.endswith("into_iter(alloc::vec::Vec::<T>::new())") or "IntoIterator>::into_iter(" in x and "Vec" in x and "skip" not in x
+                   or x in ("alloc::vec::Vec::<T>::new()",) or x.startswith("alloc::vec::Vec::<T>::with_capacity(") for x in a)
     chk.decide(names_ok and parts_ok, "positional-pairing", fk, "zip-names-with-parts", fn.where(bb),
                "the reply zips the caller's names, from the first, with the parts in the order they were computed",
                "the final zip pairs %s" % [x[:80] for x in a])
